@@ -197,7 +197,7 @@ func (s *State) callContract(spec *FuncSpec, callee *ssa.Function, c *ssa.CallCo
 							// the new value is an allocated reference (bounded after the allocation bump below)
 							s.pendingRefs = append(s.pendingRefs, nv)
 						}
-						s.heapSet(hl, store(cur, it.ref, nv))
+						s.heapSet(hl, ite(eq(it.ref, "0"), cur, store(cur, it.ref, nv)))
 					}
 				}
 			}
@@ -374,8 +374,8 @@ func (s *State) execAppend(c *ssa.CallCommon, args []Val, where string) Val {
 			k, k, k, x.Terms[0], na, k, x.Terms[2+li], k, na, k))
 		s.eng.counter++
 		k2 := sym(fmt.Sprintf("k?%d", s.eng.counter))
-		s.assume(fmt.Sprintf("(forall ((%s Int)) (! (=> (and (<= 0 %s) (< %s %s)) (= (select %s (+ %s %s)) (select %s %s))) :pattern ((select %s %s))))",
-			k2, k2, k2, y.Terms[0], na, x.Terms[0], k2, y.Terms[2+li], k2, y.Terms[2+li], k2))
+		s.assume(fmt.Sprintf("(forall ((%s Int)) (! (=> (and (<= %s %s) (< %s %s)) (= (select %s %s) (select %s (- %s %s)))) :pattern ((select %s %s))))",
+			k2, x.Terms[0], k2, k2, out.Terms[0], na, k2, y.Terms[2+li], k2, x.Terms[0], na, k2))
 		out.Terms = append(out.Terms, na)
 	}
 	return out
